@@ -303,7 +303,7 @@ pub fn finish(ctx: &Ctx) -> i32 {
     crate::engine::finish(
         ctx,
         Finish {
-            rule: "cases: binaries from the module generators (well-formed of N instructions, or with byte-level faults, or bad header) x a scripted consumer that answers Continue until callback position p and then Stop or Error(payload): EVERY p from 0 to N+3 on small modules, random p on larger ones; parse_bytes and parse_words alternate. Oracle: the always-continue callback log equals initialize, header, one call per instruction of the reference parser's well-formed prefix, finalize iff the whole binary parsed; with a script at p the log equals the baseline's first p+1 callbacks (nothing after the answer), the result is ConsumerStopRequested / ConsumerError whose boxed error downcasts to exactly the value the script answered with (nine kinds of error value: a private type, the parser's own state type incl. stop-requested and a nested consumer error, the loader's and decoder's error types, fmt::Error); a script that never fires changes nothing; load_bytes yields a module only when the parse completes. non-trivial = scripted answer at a position 1 <= p < last callback; distinct = (binary hash, p, answer kind).",
+            rule: "cases: binaries from the module generators (well-formed of N instructions, or with byte-level faults, or bad header) x a scripted consumer that answers Continue until callback position p and then Stop or Error(payload): EVERY p from 0 to N+3 on small modules, random p on larger ones; parse_bytes and parse_words alternate. Oracle: the always-continue callback log equals initialize, header, one call per instruction of the reference parser's well-formed prefix, finalize iff the whole binary parsed; with a script at p the log equals the baseline's first p+1 callbacks (nothing after the answer), the result is ConsumerStopRequested / ConsumerError whose boxed error downcasts to exactly the value the script answered with (nine kinds of error value: a private type, the parser's own state type incl. stop-requested and a nested consumer error, the loader's and decoder's error types, fmt::Error); a script that never fires changes nothing; load_bytes yields a module only when the parse completes. non-trivial = scripted answer at a position 1 <= p < last callback; distinct = (binary hash, p, answer kind). Added in rounds 18-19: structural-variations with scripted answers.",
             assumptions: vec!["relation of the baseline to the grammar is C03's oracle (run on every binary here as well)".into()],
             trusted_base: vec!["reference parser R1".into(), "scripted consumer".into()],
         },
